@@ -142,6 +142,15 @@ func parseObjects(
 		}
 
 		if len(obj.Object) != 0 {
+			if _, err = parseConditionMapAnnotation(&obj); err != nil {
+				err = packagetypes.ViolationError{
+					Reason:  packagetypes.ViolationReasonInvalidConditionMap,
+					Details: err.Error(),
+					Path:    path,
+					Index:   ptr.To(idx),
+				}
+				return
+			}
 			obj.SetLabels(labels.Merge(obj.GetLabels(), commonLabels(manifest, tmplCtx.Package.Name)))
 			objects = append(objects, obj)
 		}
